@@ -1,4 +1,5 @@
 """C09 — card verification value is the standard CVV and always three digits."""
+import core
 from core import Case, enc_b, enc_s
 from props.cardutil import tdes, corpus, digits, rb
 
@@ -54,6 +55,10 @@ def generate(rng, tier, seed):
             c = Case("same-key-and-pan-sequence", {"pan_len": len(pan)})
             one(c, cvk, pan, digits(rng, 4), rng.choice(["101", "000", "999", digits(rng, 3)]))
             yield c
+    for cvk in core.special_keys(rng, 16, limit=24 if tier == "quick" else None):
+        c = Case("special-key", {"cvk": cvk.hex()})
+        one(c, cvk, digits(rng, rng.choice((13, 16, 19))), digits(rng, 4), digits(rng, 3))
+        yield c
     # structured: every PAN length, keys with equal halves, all-zero / all-F keys
     for ln in range(0, 20):
         for cvk in (bytes(16), b"\xff" * 16, rb(rng, 8) * 2, rb(rng, 16)):
